@@ -23,6 +23,7 @@ type selfValResult struct {
 	Detected       int      `json:"detected"`
 	Skipped        int      `json:"skipped"`
 	Broken         int      `json:"not_detected"`
+	OutOfClaim     int      `json:"not_detected_outside_claim"`
 	BenignApplied  int      `json:"benign_applied"`
 	BenignSilent   int      `json:"benign_silent"`
 	BenignAlarming int      `json:"benign_alarming"`
@@ -32,6 +33,9 @@ type selfValResult struct {
 type seedMeta struct {
 	Property   string   `json:"property"`
 	DetectedBy []string `json:"detected_by_checks"`
+	// OutsideClaim: why the check of the targeted property is not expected to report this change
+	// (the broken clause is one the property's claim explicitly leaves to another property).
+	OutsideClaim string `json:"outside_claim_of_target,omitempty"`
 }
 
 func selfValidate(prop, root string) selfValResult {
@@ -42,8 +46,9 @@ func selfValidate(prop, root string) selfValResult {
 		return res
 	}
 	type job struct {
-		dir    string
-		benign bool
+		dir     string
+		benign  bool
+		outside string
 	}
 	var jobs []job
 	seeds, _ := filepath.Glob(filepath.Join(root, "seeded", "*", "patch.diff"))
@@ -61,13 +66,13 @@ func selfValidate(prop, root string) selfValResult {
 			}
 		}
 		if want {
-			jobs = append(jobs, job{dir, false})
+			jobs = append(jobs, job{dir, false, m.OutsideClaim})
 		}
 	}
 	benign, _ := filepath.Glob(filepath.Join(root, "benign", "*", "patch.diff"))
 	sort.Strings(benign)
 	for _, pth := range benign {
-		jobs = append(jobs, job{filepath.Dir(pth), true})
+		jobs = append(jobs, job{filepath.Dir(pth), true, ""})
 	}
 	var mu sync.Mutex
 	var wg sync.WaitGroup
@@ -100,6 +105,9 @@ func selfValidate(prop, root string) selfValResult {
 				if status == "violation" {
 					res.Detected++
 					res.Details = append(res.Details, name+": detected: "+note)
+				} else if j.outside != "" {
+					res.OutOfClaim++
+					res.Details = append(res.Details, name+": not reported by this check, as stated in its claim: "+j.outside)
 				} else {
 					res.Broken++
 					res.Details = append(res.Details, name+": NOT detected")
